@@ -514,6 +514,7 @@ CHECKS = {
         "tests": [
             {"name": "TestC18Enumerated", "kind": "plain", "quick": 1, "thorough": 1, "shards": {"quick": 1, "thorough": 1}},
             {"name": "TestC18Concurrent", "quick": 320, "thorough": 6400, "shards": {"quick": 16, "thorough": 16}},
+            {"name": "TestC18Leader", "quick": 240, "thorough": 6400},
         ],
     },
     "C20": {
